@@ -206,3 +206,23 @@ def gen_ledger(rng, **kw):
 def connect(entries, errors, options):
     import beanquery
     return beanquery.connect('beancount:', entries=entries, errors=errors, options=options)
+
+
+def entries_snapshot(entries):
+    """a deep, comparison-friendly image of the directives including entry and posting metadata"""
+    from beancount.core import data
+    out = []
+    for e in entries:
+        fields = []
+        for f in e._fields:
+            v = getattr(e, f)
+            if f == 'meta':
+                v = sorted((k, repr(x)) for k, x in (v or {}).items())
+            elif f == 'postings':
+                v = [(p.account, repr(p.units), repr(p.cost), repr(p.price), p.flag,
+                      None if p.meta is None else sorted((k, repr(x)) for k, x in p.meta.items())) for p in v]
+            else:
+                v = repr(v)
+            fields.append((f, v))
+        out.append((type(e).__name__, fields))
+    return out
